@@ -33,7 +33,9 @@ class Env(object):
 
     def child(self, rows):
         r = dict(self.rows); r.update(rows)
-        return Env(self.ctx, r, self.parent, None)
+        e = Env(self.ctx, r, self.parent, None)
+        e.scopes = getattr(self, 'scopes', []) + [list(rows)]       # innermost last: an unqualified name binds to the nearest scope
+        return e
 
     def lookup(self, alias, name):
         e = self
@@ -45,6 +47,10 @@ class Env(object):
                     if v is None: raise Unmodelled('unknown column %s.%s' % (alias, name))
                     return v
             else:
+                for scope in reversed(getattr(e, 'scopes', [])):
+                    inner = [e.rows[k] for k in scope if k in e.rows and _ci_get(e.rows[k].cols, name) is not None]
+                    if len(inner) == 1: return _ci_get(inner[0].cols, name)
+                    if len(inner) > 1: raise Unmodelled('ambiguous column %s' % name)
                 hits = [r for r in e.rows.values() if _ci_get(r.cols, name) is not None]
                 if len(hits) == 1: return _ci_get(hits[0].cols, name)
                 if len(hits) > 1: raise Unmodelled('ambiguous column %s' % name)
